@@ -283,6 +283,22 @@ struct Runner
     const LD steps_total = ray.empty() ? 0 : static_cast<LD>(ray.size() - 1);
     LD dev_cells = 0;      // filled by whichever oracle reports
     size_t where = 0;
+    // distance (in cells) of each point to the nearest cell border of the centre table: lets a
+    // finding be delimited to "point within x cells of a border"
+    auto border_dist_cells = [&](const P & p) {
+        LD best = 1;
+        for (int i = 0; i < D; ++i) {
+          const std::vector<S> & t = m.getCellCentersPositionAlong(i);
+          size_t k = std::lower_bound(t.begin(), t.end(), p[i]) - t.begin();
+          if (k == t.size()) {k = t.size() - 1;}
+          LD x = static_cast<LD>(p[i]);
+          LD d = fabsl(x - static_cast<LD>(t[k]));
+          if (k > 0) {d = std::min(d, fabsl(x - static_cast<LD>(t[k - 1])));}
+          LD b = fabsl(res / 2 - d) / res;
+          if (b < best) {best = b;}
+        }
+        return static_cast<double>(best);
+      };
 
     auto params = [&]() {
         return vh::Params{{"scalar_bits", ScalarName<S>::bits}, {"dim", D}, {"res", static_cast<double>(g.res)},
@@ -290,6 +306,7 @@ struct Runner
           {"steps", static_cast<double>(steps_total)},
           {"allowance_cells", static_cast<double>(allowance_cells(ci, steps_total))},
           {"deviation_cells", static_cast<double>(dev_cells)}, {"at_step", static_cast<double>(where)},
+          {"origin_border_dist_cells", border_dist_cells(ci.o)}, {"end_border_dist_cells", border_dist_cells(ci.e)},
           {"ray_kind", ci.ray_kind}, {"api", ci.api}, {"disturb", ci.disturb}, {"cast_no", ci.cast_no}};
       };
     auto wit = [&]() {
@@ -664,5 +681,5 @@ void one_case(vh::Ctx & c, uint64_t idx)
 
 int main(int argc, char ** argv)
 {
-  return vh::run(argc, argv, "C14", {8000, 400000}, one_case);
+  return vh::run(argc, argv, "C14", {8000, 800000}, one_case);
 }
